@@ -937,7 +937,7 @@ func c14Scenarios(tier string) []Scenario {
 func init() {
 	register(&Property{ID: "C14", Level: "exploration",
 		Technique: "bounded-exhaustive enumeration of (file length, offset, count) triples through the real client and the real Ufs on a scratch tree, compared with the file's bytes on disk",
-		Rule:      "msize {32,40,152} (thorough + 33, 4120, 65560) x dialect x file lengths 0..3u+2 (every length for iounit u=8; boundary lengths 0,1,u-1,u,u+1,2u-1,2u,2u+1,3u+1 otherwise) with position-dependent contents; for small u every offset 0..len+2 x every count 0..2u+1 for Clnt.Read, File.ReadAt, File.Readn, Clnt.Write, File.Written; sequential File.Read / File.Write with every buffer size (those needing more than 4000 round trips for one file are skipped); 8 files interleaved; every sequence of 3 (thorough 4) calls over Read/ReadAt/Readn/Write/WriteAt/Written against a model of contents and offset; the same through a symbolic link, a hard link, and a relative symbolic link reached through a symbolic link to its directory; host files whose reported size is 0 although they have content (/proc). non-trivial = calls compared ; ReadAt / WriteAt / Twstat{length} through an open fid after 8 kinds of Twstat on that fid (renames alone, with other fields, with fields the host refuses), old name left free or taken by a new file",
+		Rule:      "msize {32,40,152} (thorough + 33, 4120, 65560) x dialect x file lengths 0..3u+2 (every length for iounit u=8; boundary lengths 0,1,u-1,u,u+1,2u-1,2u,2u+1,3u+1 otherwise) with position-dependent contents; for small u every offset 0..len+2 x every count 0..2u+1 for Clnt.Read, File.ReadAt, File.Readn, Clnt.Write, File.Written; sequential File.Read / File.Write with every buffer size (those needing more than 4000 round trips for one file are skipped); 8 files interleaved; every sequence of 3 (thorough 4) calls over Read/ReadAt/Readn/Write/WriteAt/Written against a model of contents and offset; the same through a symbolic link, a hard link, and a relative symbolic link reached through a symbolic link to its directory; host files whose reported size is 0 although they have content (/proc). non-trivial = calls compared ; ReadAt / WriteAt / Twstat{length} through an open fid after 8 kinds of Twstat on that fid (renames alone, with other fields, with fields the host refuses), old name left free or taken by a new file ; files owned by somebody else served by an ordinary user, every open mode compared with what the host grants",
 		Assumptions: []string{"the host file system and package os are the reference", "client and server on the default schedule (data paths are sequential per fid)"},
 		Scenarios:   c14Scenarios, QuickS: 110, ThoroughS: 1200})
 }
